@@ -44,7 +44,13 @@ RULE = ("(a) round trips: real MultipartWriter (subtypes mixed/related/form-data
         "multipart/mixed body, wire size below client_max_size, decoded size limit + 5..40 decode chunks (deflate ratios ~100..1000) and a control "
         "just under the limit, read via read(decode=True)/text()/json()/form(): the bytes yielded by decode_iter before the size error must "
         "stay <= limit + 2**18 (one decode chunk = DEFAULT_CHUNK_SIZE = max_decompress_size) - implementation-only oracle, not modelled "
-        "(form-data/post() never content-decodes, so it has no decoded-size limit to test). Every case is compared event by event (headers, every chunk/line handed "
+        "(form-data/post() never content-decodes, so it has no decoded-size limit to test); (d) Content-Transfer-Encoding values in every "
+        "letter case (base64/Base64/BASE64/bAsE64, quoted-printable, binary variants) x transport segments of 1,2,3,5,7,64,1000,all x "
+        "read_chunk sizes boundary+2+{0,1,2,3,5,7,9,11,60,...}, consumed chunk by chunk with each chunk decoded on its own (manual "
+        "read_chunk+decode, BodyPartReaderPayload.write): decoded bytes == written, following part intact; a non-final chunk with >= 4 "
+        "base64 characters that is not quartet-aligned has its own signature (the recorded short-read escape only covers < 4); (e) one part "
+        "with a header line / header count below, between and above a tightened or raised max_field_size / max_headers and the defaults, "
+        "read at nesting depth 0, 1 and 2: same verdict at every depth, accepted iff within the configured limit. Every case is compared event by event (headers, every chunk/line handed "
         "out, error class) with the Lean model, and judged by the direct oracle. Distinct by boundary+parts+cuts+script.")
 TRUSTED_BASE = [
     "zlib and binascii.b2a_qp are not modelled: the compressor outputs and quoted-printable encodings are oracle columns of the writer model",
@@ -396,20 +402,43 @@ def decode_part(part, tag, data):
     return None
 
 
+_B64 = frozenset(b"ABCDEFGHIJKLMNOPQRSTUVWXYZabcdefghijklmnopqrstuvwxyz0123456789+/=")
+
+
+def b64_unaligned(chunks, complete=True):
+    """(index, number of base64 characters) of the first chunk that does not hold whole quartets, else None; when the part
+    was read to its end the last non-empty chunk is exempt.  Fewer than 4 characters = the recorded short-read escape;
+    4 or more = alignment not applied."""
+    last = max((i for i, c in enumerate(chunks) if c), default=-1)
+    for i, c in enumerate(chunks[:max(last, 0)] if complete else chunks):
+        n = sum(1 for x in c if x in _B64)
+        if n % 4:
+            return i, n
+    return None
+
+
 def b64_chunks_independent(part, tag, data):
-    """base64 parts: every chunk handed out by read_chunk must be decodable on its own and the
-    per-chunk decodings must concatenate to the decoding of the whole (reference: base64 module)"""
+    """base64 parts (any letter case of the header value - the writer and the decoder compare case-insensitively):
+    every chunk handed out by read_chunk must be decodable on its own and the per-chunk decodings must concatenate to
+    the decoding of the whole (reference: base64 module).  Returns (signature, message) or None."""
     te = part.headers.get("Content-Transfer-Encoding", "").lower()
     if tag != "C" or te != "base64":
         return None
+    msg = None
     try:
         per = b"".join(base64.b64decode(c) for c in data)
+        whole = base64.b64decode(b"".join(data))
+        if per != whole:
+            msg = f"per-chunk decoding gives {len(per)} bytes, whole gives {len(whole)}"
     except binascii.Error as e:
-        return f"a chunk is not decodable on its own: {e}"
-    whole = base64.b64decode(b"".join(data))
-    if per != whole:
-        return f"per-chunk decoding gives {len(per)} bytes, whole gives {len(whole)}"
-    return None
+        msg = f"a chunk is not decodable on its own: {e}"
+    if msg is None:
+        return None
+    un = b64_unaligned(data)
+    if un is not None and un[1] >= 4:
+        return ("C19/b64/chunk-with-whole-quartets-not-aligned",
+                f"{msg}; chunk {un[0]} holds {un[1]} base64 characters (header value {part.headers.get('Content-Transfer-Encoding')!r})")
+    return ("C19/b64/chunk-not-quartet-aligned", msg)
 
 
 def expected_headers(p):
@@ -467,9 +496,9 @@ def oracle_roundtrip(ctx, case, specs, built, parts, where=""):
         if got_h != exp_h:
             ctx.violation("C19/roundtrip/headers-differ", case, f"{where}part {i}: wrote {exp_h!r} read {got_h!r}")
         check_names(ctx, case, sp, part)
-        msg = b64_chunks_independent(part, tag, data)
-        if msg:
-            ctx.violation("C19/b64/chunk-not-quartet-aligned", case, f"{where}part {i}: {msg}")
+        sm = b64_chunks_independent(part, tag, data)
+        if sm:
+            ctx.violation(sm[0], case, f"{where}part {i}: {sm[1]}")
         try:
             dec = decode_part(part, tag, data)
         except Exception as e:
@@ -786,6 +815,9 @@ def fixed_probes():
         # readline API: a content line that starts with the boundary after a bare LF
         _rt("b", [P(content=b"a\n--b\nc"), P(content=b"second")], [["L"]]),
         _rt("b", [P(content=b"a\n--bxyz\nc"), P(content=b"second")], [["L"]]),
+        # quoted-printable decoded chunk by chunk (BodyPartReaderPayload.write / post()): an escape split by a short read stays encoded
+        {"kind": "tecase", "te_kind": "quoted-printable", "te": "quoted-printable", "path": "payload", "seg": 3, "boundary": "b",
+         "content": b"price=5 caf\xc3\xa9".hex(), "sizes": [8192]},
         # readline API on a body truncated inside a part
         {"kind": "trunc", "boundary": "b", "subtype": "mixed", "specs": specs_to_json([P(content=b"line1\r\nline2")]), "cut_at": -12,
          "script": [["L"]]},
@@ -831,6 +863,10 @@ def run_case(ctx, loop, case, lines):
         one_post(ctx, loop, case)
     elif k == "bomb":
         one_bomb(ctx, loop, case)
+    elif k == "tecase":
+        one_tecase(ctx, loop, case)
+    elif k == "nestlim":
+        one_nestlim(ctx, loop, case, lines)
 
 
 # ------------------------------------------------------------------------------ limits are enforced while reading
@@ -1150,12 +1186,195 @@ def check_bombs(ctx, loop):
                                  sample={"bomb": [api, enc, ratio_class, limit, n]} if k % 7 == 0 else None)
 
 
+# ------------------------------------------------------------------------------ header-value letter case x per-chunk decode paths
+TE_VARIANTS = {"base64": ["base64", "Base64", "BASE64", "bAsE64"],
+               "quoted-printable": ["quoted-printable", "Quoted-Printable", "QUOTED-PRINTABLE"],
+               "binary": ["binary", "BINARY", "Binary"]}
+
+
+def one_tecase(ctx, loop, case):
+    """one part whose Content-Transfer-Encoding value is written in some letter case, consumed chunk by chunk with every
+    chunk decoded on its own: (manual) read_chunk(size) + part.decode(chunk); (payload) BodyPartReaderPayload.write, which is
+    what a proxy re-sending the part uses.  The decoded bytes must be the content written, for every case variant, chunk
+    size and segmentation.  (7bit/8bit are refused by the writer; form-data/post() cannot carry the header: writer asserts.)"""
+    from aiohttp import MultipartWriter, payload
+    from aiohttp.multipart import MultipartReader, BodyPartReaderPayload
+    kind, te, path = case["te_kind"], case["te"], case["path"]
+    content = bytes.fromhex(case["content"])
+    mw = MultipartWriter("mixed", boundary=case["boundary"])
+    mw.append_payload(payload.BytesPayload(content, headers=CIMultiDict({"Content-Transfer-Encoding": te})))
+    mw.append_payload(payload.BytesPayload(b"tail"))
+    wire = write_all(loop, mw)
+    seg = case["seg"]
+    segs = [wire[i:i + seg] for i in range(0, len(wire), seg)] if seg else [wire]
+    sr = io19.make_stream(loop, 2 ** 16, 16 * len(wire) + 4096)
+    rd = MultipartReader({"Content-Type": f'multipart/mixed; boundary="{case["boundary"]}"'}, sr)
+    out = {"chunks": []}
+
+    async def main():
+        part = await rd.next()
+        orig = part.read_chunk
+
+        async def rec(size=8192):
+            c = await orig(size); out["chunks"].append(bytes(c)); return c
+        part.read_chunk = rec
+        try:
+            if path == "manual":
+                dec, i, sizes = bytearray(), 0, case["sizes"]
+                raw = bytearray()
+                while not part.at_eof():
+                    c = await part.read_chunk(sizes[i % len(sizes)]); i += 1
+                    raw += c
+                    if kind != "quoted-printable":
+                        dec += part.decode(c)
+                if kind == "quoted-printable":      # soft line breaks / escapes may straddle chunks: decode the joined text
+                    dec = part.decode(bytes(raw))
+                out["dec"] = bytes(dec)
+            else:
+                sink = Sink()
+                await BodyPartReaderPayload(part).write(sink)
+                out["dec"] = bytes(sink.buf)
+            nxt = await rd.next()
+            out["tail"] = bytes(await nxt.read()) if nxt is not None else None
+            out["res"] = "ok"
+        except io19.StepLimit:
+            out["res"] = "LOOP"
+        except Exception as e:
+            out["res"] = f"{type(e).__name__}: {str(e)[:100]}"
+
+    loop.run_until_complete(io19.lazily_fed(sr, segs, 0, False, main()))
+    ctx.hit(f"te:{kind}:{path}:{out['res'].split(':')[0]}")
+    info = f"Content-Transfer-Encoding: {te}, {len(content)} bytes, segments of {seg or 'all'}, path={path}, sizes={case.get('sizes')}"
+    bad = None
+    if out["res"] != "ok":
+        bad = f"ended with {out['res']}"
+    elif out["dec"] != content:
+        a, b = out["dec"], content
+        k = next((j for j in range(min(len(a), len(b))) if a[j] != b[j]), min(len(a), len(b)))
+        bad = f"wrote {len(b)} bytes, decoded {len(a)}; first difference at {k}"
+    elif out.get("tail") != b"tail":
+        bad = f"the following part reads as {out.get('tail')!r}"
+    if bad is None:
+        return
+    if kind == "base64":
+        un = b64_unaligned(out["chunks"], complete=out["res"] == "ok")
+        if un is not None and un[1] < 4:
+            ctx.violation("C19/b64/chunk-not-quartet-aligned", case, f"{info}: {bad} (chunk {un[0]} holds only {un[1]} base64 characters)")
+        else:
+            ctx.violation(f"C19/roundtrip/te-letter-case/base64/{path}", case,
+                          f"{info}: {bad}" + (f"; chunk {un[0]} holds {un[1]} base64 characters, not whole quartets" if un else ""))
+    elif kind == "quoted-printable" and path == "payload":
+        ctx.violation("C19/roundtrip/qp-decoded-per-chunk", case, f"{info}: {bad}")
+    else:
+        ctx.violation(f"C19/roundtrip/te-letter-case/{kind}/{path}", case, f"{info}: {bad}")
+
+
+def check_tecases(ctx, loop):
+    rng = ctx.rng
+    n = 0
+    reps = 1 if ctx.quick else 12
+    for _ in range(reps):
+        for kind, variants in TE_VARIANTS.items():
+            for te in variants:
+                for path in ("manual", "payload"):
+                    for seg in (0, 1, 2, 3, 5, 7, 64, 1000):
+                        boundary = rng.choice(["b", "bnd", "x" * 10])
+                        bl = len(boundary) + 4
+                        size = rng.choice([1, 2, 3, 4, 5, 7, 9, 10, 11, 13, 57, 100, 1000, 9000 if not ctx.quick else 300])
+                        if seg in (1, 2, 3) and size > 400:
+                            size = 100
+                        content = bytes(rng.randrange(256) for _ in range(size))
+                        if kind == "quoted-printable":
+                            content = qp_text(rng, gen_content(rng, boundary, size, ascii_only=True))
+                        if (b"\r\n--" + boundary.encode()) in b"\r\n" + encoded_body(content, None, kind):
+                            continue
+                        sizes = [bl + rng.choice([0, 1, 2, 3, 5, 7, 9, 11, 60, 8192 - bl]) for _ in range(rng.randint(1, 3))]
+                        case = {"kind": "tecase", "te_kind": kind, "te": te, "path": path, "seg": seg, "boundary": boundary,
+                                "content": content.hex(), "sizes": sizes}
+                        one_tecase(ctx, loop, case)
+                        n += 1
+                        ctx.case(("tecase", te, path, seg, boundary, case["content"], sizes),
+                                 sample={"tecase": [te, path, seg, sizes, len(content)]} if n % 61 == 0 else None)
+
+
+# ------------------------------------------------------------------------------ limits do not depend on nesting depth
+def one_nestlim(ctx, loop, case, lines):
+    """the same part (same header block) read at top level, nested once and nested twice, with configured
+    max_field_size / max_headers: the accept/reject verdict must be the same at every depth, a header block within the
+    configured limits must read back (also when the limit is raised above the default), one beyond them must be refused"""
+    from aiohttp import MultipartWriter, payload
+    which, L, m = case["which"], case["limit_value"], case["m"]
+    hdrs = [("X-Long", "a" * m)] if which == "field" else [(f"X-H{i}", "v") for i in range(m)]
+    content = b"payload-bytes"
+    kw = dict(script=[("R",)], descend=True, max_field=L if which == "field" else 8190,
+              max_headers=L if which == "headers" else 128, limit=2 ** 16)
+    seg = case["seg"]
+    verdicts = []
+    for depth in (0, 1, 2):
+        mw = MultipartWriter("mixed", boundary="d0")
+        cur = mw
+        for d in range(depth):
+            inner = MultipartWriter("mixed", boundary=f"d{d + 1}")
+            cur.append_payload(inner)
+            cur = inner
+        cur.append_payload(payload.BytesPayload(content, headers=CIMultiDict(hdrs)))
+        wire = write_all(loop, mw)
+        segs = [wire[i:i + seg] for i in range(0, len(wire), seg)]
+        ev, parts, steps, err, rd = run_reader(loop, segs, "d0", "mixed", **kw)
+        got = None
+        node = parts
+        for d in range(depth):
+            node = node[0][2] if node and node[0][0] == "N" and node[0][2] is not None else []
+        if err is None and node and node[0][0] == "B":
+            got = node[0][3][0]
+        verdicts.append("ok" if err is None and got == content else (err or "content-lost").split("@")[0])
+        lines.append((rd_line(segs, "d0", "mixed", **kw), ev, case, f"nested limits (depth {depth}) vs Aio.C19.drive"))
+    ctx.hit(f"nestlim:{which}:{case['mode']}:{'/'.join(verdicts)}")
+    # what the configured limit says about this header block (line = name + ': ' + value + CRLF; count = part headers incl.
+    # the Content-Type and Content-Length the writer adds)
+    if which == "field":
+        within = len("X-Long: ") + m + 2 <= L
+    else:
+        within = m + 2 <= L
+    info = f"{which} limit {L} ({case['mode']}), header block of {m} ({'within' if within else 'beyond'} the limit): verdicts at depth 0/1/2 = {verdicts}"
+    if len(set(verdicts)) != 1:
+        ctx.violation(f"C19/limits/nested/{which}-{case['mode']}-verdict-depends-on-depth", case, info)
+    elif within and verdicts[0] != "ok":
+        ctx.violation(f"C19/limits/nested/{which}-{case['mode']}-valid-part-refused", case, info)
+    elif not within and verdicts[0] == "ok":
+        ctx.violation(f"C19/limits/{which}/not-enforced", case, info)
+
+
+def check_nestlims(ctx, loop):
+    rng = ctx.rng
+    lines = []
+    for rep in range(1 if ctx.quick else 10):
+        for which in ("field", "headers"):
+            for mode in ("tightened", "raised"):
+                if which == "field":
+                    L = rng.choice([60, 100, 1000]) if mode == "tightened" else rng.choice([12000, 20000, 50000])
+                    lo, hi = (L, 8190) if mode == "tightened" else (8190, L)
+                else:
+                    L = rng.choice([3, 4, 10]) if mode == "tightened" else rng.choice([200, 300])
+                    lo, hi = (L, 128) if mode == "tightened" else (128, L)
+                # between the configured limit and the default (where a default-limited nested reader errs), and both sides
+                ms = [rng.randint(lo + 1, hi - 12), max(1, min(lo, hi) // 2), hi + rng.randint(10, 200) if which == "field" else hi + 5,
+                      (lo + hi) // 2]
+                for m in ms:
+                    if which == "headers":
+                        m = max(1, m)
+                    case = {"kind": "nestlim", "which": which, "mode": mode, "limit_value": L, "m": m, "seg": rng.choice([64, 1000, 100000])}
+                    one_nestlim(ctx, loop, case, lines)
+                    ctx.case(("nestlim", which, mode, L, m, case["seg"]))
+    flush_compare(ctx, lines)
+
+
 def check(ctx):
     import time
     loop = asyncio.new_event_loop()
     asyncio.set_event_loop(loop)
     try:
-        for f in (check_probes, check_mechanisms, check_roundtrips, check_mutations, check_limits, check_bombs, check_posts):
+        for f in (check_probes, check_mechanisms, check_roundtrips, check_mutations, check_limits, check_bombs, check_tecases, check_nestlims, check_posts):
             t = time.time()
             f(ctx, loop)
             ctx.extra.setdefault("section_seconds", {})[f.__name__] = round(time.time() - t, 1)
